@@ -55,6 +55,8 @@ let parse_op (w : ostring list) : op option =
   | ["gets"; i] -> Some (GetStruct (z_of_dec i))
   | ["sets"; i; h] -> Some (SetStruct (z_of_dec i, bytes_of_hex h))
   | ["pops"; n] -> Some (PopStruct (n_of_int (int_of_string n)))
+  | ["pushse"; i] -> Some (PushStructElem (z_of_dec i))
+  | ["setse"; i; j] -> Some (SetStructElem (z_of_dec i, z_of_dec j))
   | _ -> None
 (* ---- gc lines (same protocol as probes/gc_probe.c, with addresses instead of handles):
      gnew | galloc <addr> <size> <type> | gretain <addr> | gretainsafe <addr> | grelease <addr> | gmanaged <addr> | gcollect *)
@@ -91,6 +93,40 @@ let gc_line (w : ostring list) : bool =
   | ["gcollect"] -> run GCollect; true
   | _ -> false
 
+(* one modelled operation on the current state: Ok (state', output, notes) or Stop (answer line) *)
+type o1 = Ok1 of dyn * out * string | Stop1 of string
+let exec1 (d : dyn) (o : op) : o1 =
+  let extra = ref "" in
+  if not (invb rt_params d) then extra := " INV-BROKEN";
+  let a = lstep rt_params (abs d) o in
+  match step rt_params d o with
+  | ROk (d', x) ->
+      (match a with
+       | LOk (l', x') -> if not (l' = abs d' && x' = x) then extra := !extra ^ " ABS-MISMATCH"
+       | LAbort -> extra := !extra ^ " ABS-MISMATCH"
+       | LExcluded -> ());
+      Ok1 (d', x, !extra)
+  | RAbort -> (match a with LAbort | LExcluded -> () | _ -> extra := !extra ^ " ABS-MISMATCH"); Stop1 ("abort" ^ !extra)
+  | RCrash -> (match a with LExcluded -> () | _ -> extra := !extra ^ " ABS-MISMATCH"); Stop1 ("crash" ^ !extra)
+  | ROom -> (match a with LExcluded -> () | _ -> extra := !extra ^ " ABS-MISMATCH"); Stop1 ("oom" ^ !extra)
+(* composite lines of the probe: the value operand is read from the same array by a modelled get/pop first *)
+let exec_line (d : dyn) (w : ostring list) : o1 option =
+  let value_of x = match x with OCell (Val v) -> Some v | OPop (_, Val v) -> Some v | _ -> None in
+  let seq2 o1_ mk =
+    (match exec1 d o1_ with
+     | Stop1 s -> Some (Stop1 s)
+     | Ok1 (d1, x, e1) ->
+        (match value_of x with
+         | None -> Some (Stop1 ("crash" ^ e1 ^ " UNINIT-OPERAND"))
+         | Some v -> (match exec1 d1 (mk v) with
+                      | Ok1 (d2, x2, e2) -> Some (Ok1 (d2, x2, e1 ^ e2))
+                      | Stop1 s -> Some (Stop1 (s ^ e1))))) in
+  match w with
+  | ["pushat"; k; i] -> let sk = skind_of k.[0] in seq2 (Get (sk, z_of_dec i)) (fun v -> Push (sk, v))
+  | ["setat"; k; i; j] -> let sk = skind_of k.[0] in seq2 (Get (sk, z_of_dec j)) (fun v -> Set_ (sk, z_of_dec i, v))
+  | ["pushpop"; k] -> let sk = skind_of k.[0] in seq2 (Pop sk) (fun v -> Push (sk, v))
+  | _ -> (match parse_op w with None -> None | Some o -> Some (exec1 d o))
+
 let dyn_main () =
   let st : dyn option ref = ref None in
   iter_lines (fun line ->
@@ -108,23 +144,8 @@ let dyn_main () =
         (match !st with
          | None -> print_string "skip\n"
          | Some d ->
-            (match parse_op w with
+            (match exec_line d w with
              | None -> print_string "bad\n"
-             | Some o ->
-                let extra = ref "" in
-                if not (invb rt_params d) then extra := " INV-BROKEN";
-                let a = lstep rt_params (abs d) o in
-                (match step rt_params d o with
-                 | ROk (d', x) ->
-                     (match a with
-                      | LOk (l', x') -> if not (l' = abs d' && x' = x) then extra := !extra ^ " ABS-MISMATCH"
-                      | LAbort -> extra := !extra ^ " ABS-MISMATCH"
-                      | LExcluded -> ());
-                     st := Some d'; print_string (str_out x ^ str_state d' ^ !extra ^ "\n")
-                 | RAbort -> (match a with LAbort | LExcluded -> () | _ -> extra := !extra ^ " ABS-MISMATCH");
-                     st := None; print_string ("abort" ^ !extra ^ "\n")
-                 | RCrash -> (match a with LExcluded -> () | _ -> extra := !extra ^ " ABS-MISMATCH");
-                     st := None; print_string ("crash" ^ !extra ^ "\n")
-                 | ROom -> (match a with LExcluded -> () | _ -> extra := !extra ^ " ABS-MISMATCH");
-                     st := None; print_string ("oom" ^ !extra ^ "\n")))))
+             | Some (Ok1 (d', x, e)) -> st := Some d'; print_string (str_out x ^ str_state d' ^ e ^ "\n")
+             | Some (Stop1 s) -> st := None; print_string (s ^ "\n"))))
 let () = dyn_main ()
